@@ -3,10 +3,10 @@
 package main
 
 import (
-	"errors"
-	"net"
 	"context"
+	"errors"
 	"fmt"
+	"net"
 	"os"
 	"strings"
 	"testing"
